@@ -307,8 +307,7 @@ def run_insitu(case, res):
             ctx.extra["user_map"] = lambda x: x
         ctx.extra["h_raw"] = built.h_raw
     contracts.drain()
-    run = engine.run_solve(built.objfun, built.x0.copy(), ctx=ctx, timeout=200, solve_kwargs=built.kw)
-    run.built, run.cfg = built, cfg
+    run = gen.run_cfg(cfg, ctx, timeout=200, built=built)
     oracles.common_stats(run, st)
     st["mode|%d" % (case["i"] % 4)] = 1
     for w in contracts.drain():
